@@ -26,11 +26,29 @@ What is proved, and in which arithmetic (each theorem says so in its docstring):
     observe_ok_iff_finite          `SourceSnapshot::observe` succeeds iff offset, √variance and delay are
                                    not NaN/±∞ (this is what the oracle monitors on the implementation)
 
+  PERIODIC one-way sources (PPS/sock, `period = Some p`; Model/SourceFilter Part 4, loops with a budget):
+    periodic_innovation_in_half_period   exact: when the correction returns, −p/2 ≤ z' − prediction ≤ p/2 (p > 0)
+    periodic_wrap_fuel_sufficient        exact: a budget of n iterations suffices when |z − prediction| ≤ p/2 + n·p
+    periodic_cov_unaffected              exact: the wrap changes only the mean — PSD is preserved whatever the
+                                         wrapped state mean and the wrapped measurement are
+    periodic_innovation_exit_f64         F64, order-only: on return the lower test is false on the result and the
+                                         upper test was false on the value the second loop started from
+    periodic_state_exit_f64              F64: `correct_periodicity` leaves covariance and time untouched bit for
+                                         bit; exit facts for the offset
+    periodic_nan_terminates              F64: a NaN offset leaves both loops at once (any budget ≥ 0)
+    periodic_update_no_panic             F64: a stable one-way filter's update reaches no panic site (i32 score
+                                         overflow is the only one) under the score invariants; the remaining
+                                         abort is `observe` on a non-finite state, i.e. the registered causes
+    (a ±∞ or astronomically large offset never leaves the real loop: shown on the real code by stream
+     c06_periodic with a bounded-time guard; known finding F-C06e)
+
 `Full` (finiteness of the ROUNDED binary64 filter over every admissible history) is stated and NOT
 proved: rounded binary64 arithmetic over unbounded histories is exercised (bit-exact correspondence +
 finiteness oracle), not proved.
 -/
 import NtpVerif.Proofs.KalmanExact
+import NtpVerif.Proofs.KalmanPeriodic
+import NtpVerif.Proofs.SourceFilterPeriodic
 import NtpVerif.Model.SourceFilter
 
 namespace NtpVerif.C06
@@ -146,6 +164,91 @@ theorem observe_ok_iff_finite (sn : Snapshot) :
   cases durFromSeconds sn.k.s.x.x0 <;> cases durFromSeconds sn.k.s.P.a00.sqrt <;>
     cases durFromSeconds sn.delay <;> rfl
 
+/-! ### periodic one-way sources -/
+
+section periodic_exact
+variable {α : Type} [Field α] [LinearOrder α] [IsStrictOrderedRing α]
+
+/-- **periodic_innovation_in_half_period** (exact arithmetic): whenever the measurement correction of
+    `absorb_measurement` returns, the wrapped innovation lies in `[−p/2, p/2]` (`p > 0`). -/
+theorem periodic_innovation_in_half_period (p : α) (hp : 0 < p) (fuel : Nat) (z pred z' : α)
+    (h : wrapValue fieldGt fieldLt fuel z pred p = some z') : -p / 2 ≤ z' - pred ∧ z' - pred ≤ p / 2 :=
+  wrapValue_range p hp fuel z pred z' h
+
+/-- **periodic_wrap_fuel_sufficient** (exact arithmetic) — fuel-sufficiency lemma: a budget of `n`
+    iterations per loop suffices whenever the measured value is at most `n` periods (plus half a period)
+    away from the prediction, and then the wrapped innovation lies in `[−p/2, p/2]`. -/
+theorem periodic_wrap_fuel_sufficient (p : α) (hp : 0 < p) (n : Nat) (z pred : α)
+    (hdist : |z - pred| ≤ p / 2 + n * p) :
+    ∃ z', wrapValue fieldGt fieldLt n z pred p = some z' ∧ -p / 2 ≤ z' - pred ∧ z' - pred ≤ p / 2 :=
+  wrapValue_exact p hp n z pred hdist
+
+/-- **periodic_cov_unaffected** (exact arithmetic): the periodicity handling changes only the mean.  Take
+    the progressed state, replace its mean by ANY vector (the wrapped one) and absorb ANY value (the wrapped
+    measurement): the covariance is the one of the non-periodic filter, hence symmetric PSD. -/
+theorem periodic_cov_unaffected (s : KState α) (dt w r : α) (xw : Vec2 α) (zw z : α) (hP : PSD s.P)
+    (hdt : 0 < dt) (hw : 0 < w) (hr : 0 ≤ r) :
+    (absorbCore { x := xw, P := (progressCore s dt w).P } 1 0 zw r).st.P
+        = (absorbCore (progressCore s dt w) 1 0 z r).st.P ∧
+    PSD (absorbCore { x := xw, P := (progressCore s dt w).P } 1 0 zw r).st.P := by
+  have hp := progress_psd s dt w hP hdt.le hw.le
+  have hpos := progress_var_pos s dt w hP hdt hw
+  refine ⟨rfl, ?_⟩
+  exact absorb_psd { x := xw, P := (progressCore s dt w).P } zw r hp hr (by show 0 < _ + r; linarith)
+
+end periodic_exact
+
+/-- **periodic_innovation_exit_f64** (F64, order-only, given that the budgeted loops returned): the lower
+    test `z' − prediction < −p/2` is false on the result; the upper test was false on the value `mid` the
+    second loop started from, and if that loop had nothing to do the result is `mid`. -/
+theorem periodic_innovation_exit_f64 (fuel : Nat) (z pred p z' : F64)
+    (h : wrapValue fgt flt fuel z pred p = some z') :
+    flt (z' - pred) (-p / (2 : F64)) = false ∧
+    ∃ mid, fgt (mid - pred) (p / (2 : F64)) = false ∧
+      (flt (mid - pred) (-p / (2 : F64)) = false → z' = mid) :=
+  wrapValue_exit fgt flt fuel z pred p z' h
+
+/-- **periodic_state_exit_f64** (F64): `correct_periodicity` touches neither covariance nor time stamp
+    (bit for bit), and on return the lower test is false on the offset. -/
+theorem periodic_state_exit_f64 (fuel : Nat) (k k' : KT) (p : F64)
+    (h : correctPeriodicity fuel k (some p) = .ok k') :
+    k'.s.P = k.s.P ∧ k'.time = k.time ∧ flt k'.s.x.x0 (-p / (2 : F64)) = false := by
+  unfold correctPeriodicity at h
+  simp only at h
+  cases hw : wrapVec fgt flt fuel k.s.x p with
+  | none => rw [hw] at h; cases h
+  | some x =>
+    rw [hw] at h
+    simp only [orFuel, Outcome.bind] at h
+    cases h
+    exact ⟨rfl, rfl, (wrapVec_exit fgt flt fuel k.s.x x p hw).1⟩
+
+/-- **periodic_nan_terminates** (F64): with a NaN offset both loop tests are false (IEEE comparisons), so
+    `correct_periodicity` returns the state unchanged whatever the budget. -/
+theorem periodic_nan_terminates (fuel : Nat) (k : KT) (p : F64) (hn : k.s.x.x0.isNaN = true) :
+    correctPeriodicity fuel k (some p) = .ok k := by
+  have h1 : fgt k.s.x.x0 (p / (2 : F64)) = false := by simp [fgt, F64.gt, F64.lt, hn]
+  have h2 : flt k.s.x.x0 (-p / (2 : F64)) = false := by simp [flt, F64.lt, hn]
+  unfold correctPeriodicity
+  simp only [wrapVec_noop fgt flt fuel k.s.x p h1 h2, orFuel, Outcome.bind]
+
+/-- **periodic_update_no_panic** (F64, arithmetic uninterpreted): for every period (or none), every
+    measurement, whatever the floats, one `SourceFilter::update` of a stable one-way filter reaches none of
+    its panic sites (the i32 overflows of `precision_score` / `poll_score`, `PollInterval::inc/dec`) provided
+    the two scores satisfy their hysteresis invariants and the limits avoid the i8 corners.  It may still
+    not return (loop budget, F-C06e); the only other abort of a one-way source is `observe` handing a
+    non-finite estimate to `from_seconds` (`observe_ok_iff_finite`), i.e. the registered numerical causes. -/
+theorem periodic_update_no_panic (fuel : Nat) (f : OStable) (sc : SrcCfg) (ac : AlgoCfg)
+    (period : Option F64) (m : OMeas) (now : Nat)
+    (hlim : -127 ≤ sc.lim.min ∧ sc.lim.min ≤ sc.lim.max ∧ sc.lim.max ≤ 126)
+    (hh : Wrap.I32_MIN < ac.poll.hysteresis ∧ ac.poll.hysteresis ≤ Wrap.I32_MAX)
+    (hw : Wrap.I32_MIN < ac.wander.hysteresis ∧ ac.wander.hysteresis ≤ Wrap.I32_MAX)
+    (hpoll : PollInv ac.poll sc.lim f.poll)
+    (hprec : f.precisionScore = 0 ∨
+      (-ac.wander.hysteresis < f.precisionScore ∧ f.precisionScore < ac.wander.hysteresis)) :
+    OStable.update fuel f sc ac period m now ≠ .panic :=
+  OStable.update_ne_panic fuel f sc ac period m now hlim hh hw hpoll hprec
+
 /-! ### the full statement (NOT proved: rounding) -/
 
 /-- a snapshot is well-formed: finite offset, finite non-negative variance, finite delay, `observe` ok -/
@@ -206,6 +309,15 @@ example : (absorbCore (⟨⟨0, 0⟩, ⟨0, 0, 0, 0⟩⟩ : KState Rat) 1 0 5 0)
 example : (durFromSeconds F64.nan).isSome = false ∧ (durFromSeconds F64.inf).isSome = false := by
   constructor <;> rfl
 
+/-- periodic non-vacuity: with p = 1, prediction 1/10 and a measurement 37/10 the exact correction returns
+    7/10 − 1 = −3/10 + … : value −3/10 + 1/10·0, i.e. innovation −2/5 ∈ [−1/2, 1/2], after 4 iterations -/
+example : wrapValue (fieldGt (α := Rat)) fieldLt 4 (37 / 10) (1 / 10) 1 = some (-3 / 10) := by
+  decide +kernel
+
+/-- … and a budget of 3 iterations is not enough -/
+example : wrapValue (fieldGt (α := Rat)) fieldLt 3 (37 / 10) (1 / 10) 1 = none := by
+  decide +kernel
+
 end NtpVerif.C06
 
 #print axioms NtpVerif.C06.progress_keeps_psd
@@ -219,3 +331,10 @@ end NtpVerif.C06
 #print axioms NtpVerif.C06.root_dispersion_poly_nonneg
 #print axioms NtpVerif.C06.from_seconds_total_on_finite
 #print axioms NtpVerif.C06.observe_ok_iff_finite
+#print axioms NtpVerif.C06.periodic_innovation_in_half_period
+#print axioms NtpVerif.C06.periodic_wrap_fuel_sufficient
+#print axioms NtpVerif.C06.periodic_cov_unaffected
+#print axioms NtpVerif.C06.periodic_innovation_exit_f64
+#print axioms NtpVerif.C06.periodic_state_exit_f64
+#print axioms NtpVerif.C06.periodic_nan_terminates
+#print axioms NtpVerif.C06.periodic_update_no_panic
